@@ -275,7 +275,18 @@ func asString(t iterator, v interface{}) string {
 		}
 		return "false"
 	case float64:
-		return strconv.FormatFloat(v, 'g', -1, 64)
+		// XPath 1.0 section 4.2: no exponent notation, no negative zero, NaN and Infinity spelled out
+		switch {
+		case math.IsNaN(v):
+			return "NaN"
+		case math.IsInf(v, 1):
+			return "Infinity"
+		case math.IsInf(v, -1):
+			return "-Infinity"
+		case v == 0:
+			return "0"
+		}
+		return strconv.FormatFloat(v, 'f', -1, 64)
 	case string:
 		return v
 	case query:
